@@ -216,4 +216,71 @@ def depthL : List CItem → Nat
   | i :: r => max i.depth (depthL r)
 end
 
+/-! ### the layout of the compact printer -/
+/-- the quote the printer chooses: a single quote when the value holds a double quote -/
+def canonQuote (v : Str) : Char := if v.contains '"' then '\'' else '"'
+
+def canonAttr (a : Attr) : CAttr := ⟨[' '], a.name, [], [], canonQuote (printPieces a.vals), a.vals⟩
+
+def canonPIBody : Option Str → Str
+  | none => []
+  | some x => ' ' :: x
+
+mutual
+def canonItem : Item → CItem
+  | .text s => .text s
+  | .charRef d h => .charRef d h
+  | .entRef n => .entRef n
+  | .cdata s => .cdata s
+  | .pi t d => .pi t (canonPIBody d)
+  | .comment s => .comment s
+  | .elem n attrs kids =>
+      match kids with
+      | [] => .elem n (attrs.map canonAttr) [' '] true [] []
+      | k :: ks => .elem n (attrs.map canonAttr) [] false (canonItem k :: canonItems ks) []
+def canonItems : List Item → List CItem
+  | [] => []
+  | i :: r => canonItem i :: canonItems r
+end
+
+/-- Misc items in front of / behind the document element; `none` when the list holds something else -/
+def canonMiscs : List TopItem → Option (List CMisc)
+  | [] => some []
+  | .comment s :: r => (canonMiscs r).map (CMisc.comment s :: ·)
+  | .pi t d :: r => (canonMiscs r).map (CMisc.pi t (canonPIBody d) :: ·)
+  | _ :: _ => none
+
+/-- the concrete document the printer writes for `d`, for the profile of the completeness theorem: no XML declaration,
+    no DOCTYPE, comments and PIs around exactly one element -/
+def canonTop : List TopItem → Option (List CMisc × CItem × List CMisc)
+  | [] => none
+  | .elem e :: r => (canonMiscs r).map fun after => ([], canonItem e, after)
+  | .comment s :: r => (canonTop r).map fun (b, e, a) => (CMisc.comment s :: b, e, a)
+  | .pi t d :: r => (canonTop r).map fun (b, e, a) => (CMisc.pi t (canonPIBody d) :: b, e, a)
+  | .doctype _ :: _ => none
+
+def canonDoc (d : IDoc) : Option CDoc :=
+  if d.version.isSome || d.encoding.isSome || d.standalone.isSome then none else
+  (canonTop d.kids).map fun (b, e, a) => ⟨none, b, e, a⟩
+
+/-- the data of a PI does not start with white space (the parser gives that white space to the separator) -/
+def piFaithful : Option Str → Bool
+  | some (c :: _) => !isWs c
+  | _ => true
+
+mutual
+def faithfulItem : Item → Bool
+  | .pi _ d => piFaithful d
+  | .elem _ _ kids => faithfulItems kids
+  | _ => true
+def faithfulItems : List Item → Bool
+  | [] => true
+  | i :: r => faithfulItem i && faithfulItems r
+end
+
+def faithfulTop : TopItem → Bool
+  | .pi _ d => piFaithful d
+  | .elem e => faithfulItem e
+  | _ => true
+
 end XmlRs
